@@ -9,7 +9,7 @@
    C24's sequential specification from st0 yields every returned result.
    [Linearizable st0 h]: such an order exists. *)
 From verif Require Import lib.Base model.C24_F64 model.C24_StoreSpec model.C24 model.C26
-  proofs.C24_proofs proofs.C24_more proofs.C26_proofs proofs.C26_more.
+  proofs.C24_proofs proofs.C24_more proofs.C26_proofs proofs.C26_more proofs.C26_exact.
 From Coq Require Import Floats.SpecFloat.
 Open Scope N_scope.
 
@@ -18,6 +18,14 @@ Theorem C26_check_witness_sound : forall st0 h order,
   check_witness st0 h order = true -> Linearizable st0 h.
 Proof. exact check_witness_sound. Qed.
 Print Assumptions C26_check_witness_sound.
+
+(* ... and exact: it accepts an order if and only if the order is a
+   linearization, so the run-time oracle demands the property and nothing more
+   (a valid witness is never rejected). *)
+Theorem C26_check_witness_exact : forall st0 h order,
+  check_witness st0 h order = true <-> Linearization st0 h order.
+Proof. exact check_witness_exact. Qed.
+Print Assumptions C26_check_witness_exact.
 
 (* The server model: clients invoke requests, the service executes each request
    as one atomic step of the specification at some moment between its
